@@ -55,6 +55,7 @@ class Model:
         self.container_of: Dict[str, str] = {}
         self.frags: Dict[Tuple[str, str], Dict[str, List[Dict[str, Any]]]] = {}
         self.by_marker: Dict[str, Tuple[Dict[str, Any], Optional[str]]] = {}
+        self._mixed_parents: Dict[Tuple[str, str], set] = {}
         for c in world.get("containers", []):
             cf = (c["sn"], "CONTAINER")
             self._define([cf], c, None)
@@ -206,6 +207,7 @@ class Model:
         one entry means: not unique)"""
         l = self.layers[layer_sn]
         inherited: Dict[str, Tuple[int, List[Dict[str, Any]]]] = {}
+        mixed: set = set()
         for p in l.get("parents", []):
             res = self.idref(("layer", layer_sn), p["ref"])
             if res[0] != "BIND":
@@ -216,11 +218,14 @@ class Model:
             for sn, objs in self.view(pl["sn"], coll).items():
                 if sn in ni:
                     continue
+                if sn in inherited and inherited[sn][0] != prio:
+                    mixed.add(sn)  # offered by parents of different types (see snref: don't care unless overridden locally)
                 if sn not in inherited or inherited[sn][0] < prio:
                     inherited[sn] = (prio, list(objs))
                 elif inherited[sn][0] == prio:
                     merged = inherited[sn][1] + [o for o in objs if not any(o is x for x in inherited[sn][1])]
                     inherited[sn] = (prio, merged)
+        self._mixed_parents.setdefault((layer_sn, coll), set()).update(mixed)
         res2: Dict[str, List[Dict[str, Any]]] = {sn: objs for sn, (_, objs) in inherited.items()}
         local: Dict[str, List[Dict[str, Any]]] = {}
         for o in self.local_objs(layer_sn, coll):
@@ -234,6 +239,31 @@ class Model:
             for c in colls:
                 if sum(1 for o in self.local_objs(l, c) if o["sn"] == name) > 1:
                     return True
+        return False
+
+    def _parents_compete(self, layer_sn: str, colls: Iterable[str], name: str) -> bool:
+        """somewhere on the way up from layer_sn the name is inherited from parents of different types and not overridden
+        by a layer closer to layer_sn"""
+        for c in colls:
+            chain = [layer_sn]
+            seen = set()
+            while chain:
+                cur = chain.pop(0)
+                if cur in seen:
+                    continue
+                seen.add(cur)
+                if any(o["sn"] == name for o in self.local_objs(cur, c)):
+                    continue  # overridden here: whatever happens above does not matter for this path
+                self.view(cur, c)
+                if name in self._mixed_parents.get((cur, c), set()):
+                    return True
+                l = self.layers[cur]
+                for p in l.get("parents", []):
+                    if name in p.get("ni", {}).get(NI_KEY[c], []):
+                        continue
+                    res = self.idref(("layer", cur), p["ref"], dontcares=False)
+                    if res[0] == "BIND":
+                        chain.append(self.by_marker[res[1]][0]["sn"])
         return False
 
     def _imports_offer(self, layer_sn: str, colls: Iterable[str], name: str) -> bool:
@@ -261,6 +291,10 @@ class Model:
             for c in colls:
                 for o in self.view(ctx_layer, c).get(name, []):
                     cands.append((o, c))
+            if self._parents_compete(ctx_layer, colls, name):
+                # the same short name inherited from an ECU-SHARED-DATA parent and from a parent of another type: which one
+                # wins (odxtools: the shared data) is not stated by the property
+                return ("DONTCARE", "short name offered by parents of different layer types")
             if not cands:
                 return ("FAIL", f"no {kind} named {name} visible in {ctx_layer}")
             if len(cands) > 1:
